@@ -762,6 +762,11 @@ func deployCorpus() (first, last []deployCase) {
 		{info: mkNode(4, 100, nil, 1000, 0), base: 100, maxShare: -1, count: 2, raw: map[string]any{"cpu-bind": true, "cpu-request": 1.0, "cpu-limit": 2.0, "memory-limit": int64(100)}, k: 200, label: "limit-gt-request"},
 		{info: mkNode(2, 100, nil, 1000, 1200), base: 100, maxShare: -1, count: 1, raw: bind(1, 100), k: 100, label: "c06-negative-free-memory"},
 	}
+	// unbound instances whose total memory overflows int64 when multiplied out
+	for _, hc := range [][2]int64{{1 << 62, 4}, {1 << 61, 8}, {1 << 60, 16}, {1<<62 + 5, 4}, {1 << 62, 2}, {1 << 40, 3}} {
+		first = append(first, deployCase{info: mkNode(4, 100, nil, 8<<30, 0), base: 100, maxShare: -1, count: int(hc[1]),
+			raw: map[string]any{"cpu-request": 0.5, "memory-request": hc[0]}, k: 50, label: "c04-huge-memory-product"})
+	}
 	last = []deployCase{
 		{info: mkNode(2, 100, nil, 1000, 0), base: 100, maxShare: -1, count: 1, raw: bind(0.001, 0), k: -1, label: "c06-sub-piece"},
 	}
@@ -974,7 +979,15 @@ func runDeploy(t *testing.T) {
 			raw["cpu-request"] = -cpu
 			k = -1
 		}
-		emit(deployCase{info: info, base: base, maxShare: maxShare, count: -1, raw: raw, k: k, label: "random"})
+		count := -1
+		if !bindReq && g.chance(0.08) {
+			// astronomically large unbound requests: count x memory does not fit int64
+			sh := uint(55 + g.intn(8))
+			raw["memory-request"] = int64(1)<<sh + int64(g.intn(3))
+			delete(raw, "memory-limit")
+			count = 1 << uint(g.intn(7))
+		}
+		emit(deployCase{info: info, base: base, maxShare: maxShare, count: count, raw: raw, k: k, label: "random"})
 	}
 	for _, c := range last {
 		if timeouts < 3 {
@@ -1155,6 +1168,18 @@ func runRealloc(t *testing.T) {
 		emit(reallocCase{info: copyNI(n), base: 100, maxShare: -1, origin: w, raw: map[string]any{"cpu-bind": false, "memory-request": int64(10)}, label: "unbind"})
 		emit(reallocCase{info: copyNI(n), base: 100, maxShare: -1, origin: w, raw: map[string]any{"keep-cpu-bind": true, "cpu-request": 9.0}, label: "too-much"})
 		emit(reallocCase{info: copyNI(n), base: 100, maxShare: -1, origin: w, raw: map[string]any{"keep-cpu-bind": true, "cpu-request": -1.299}, label: "shrink-below-one-piece"})
+		// keep-bind realloc of a workload on NUMA node 1 while node 0 has room too: the NUMA node
+		// holding the origin's cores is visited first (before /repo's NUMA-order fix the answer
+		// depended on Go's map iteration order)
+		alt := mkNode(4, 100, map[string]int{"1": 100}, 1000, 100)
+		alt.Capacity.NUMA = ctypes.NUMA{"0": "0", "1": "1", "2": "0", "3": "1"}
+		alt.Capacity.NUMAMemory = ctypes.NUMAMemory{"0": 500, "1": 500}
+		alt.Usage.NUMAMemory = ctypes.NUMAMemory{"0": 0, "1": 100}
+		wAlt := &ctypes.WorkloadResource{CPURequest: 1, CPULimit: 1, MemoryRequest: 100, MemoryLimit: 100,
+			CPUMap: ctypes.CPUMap{"1": 100}, NUMAMemory: ctypes.NUMAMemory{"1": 100}, NUMANode: "1"}
+		for i := 0; i < 6; i++ {
+			emit(reallocCase{info: copyNI(alt), base: 100, maxShare: -1, origin: wAlt, raw: map[string]any{"keep-cpu-bind": true}, label: "numa-origin-node-first"})
+		}
 	}
 	n := r.N(300, 6000)
 	cfgs := [][2]int{{100, -1}, {100, -1}, {100, 2}, {10, -1}, {1000, 3}}
